@@ -74,6 +74,8 @@ class C19(Check):
             cfgs.append(Config('front_single_W%d' % W, self.front, {'joint': False, 'W': W}, split=4))
             cfgs.append(Config('front_joint_W%d' % W, self.front, {'joint': True, 'W': W}, split=4))
             cfgs.append(Config('front_joint_vector_beta_W%d' % W, self.front, {'joint': True, 'W': W, 'vector': True}, split=4))
+            # the caller's LIST of series holds integer arrays: neither the arrays nor the list's slots may change
+            cfgs.append(Config('front_joint_int_series_W%d' % W, self.front, {'joint': True, 'W': W, 'elem': 'int64'}, split=4))
         cfgs.append(Config('failing', self.failing, {}, split=3))
         for cf in cfgs:
             cf.witness_every = cf.witness_every or 7
@@ -183,11 +185,15 @@ class C19(Check):
                 conj([no_caller_writes(), len(given) == 2, given[0] is series[0], given[1] is series[1]] +
                      [stubs.unchanged(sn, a) for sn, a in zip(snaps, series)]))
 
-    def _front_call(self, c, joint, W, fault=None, vector=False):
+    def _front_call(self, c, joint, W, fault=None, vector=False, elem='float64'):
         Rp = self.R
         K, N = 2, 1
         n = N * W
-        if joint:
+        if joint and elem == 'int64':
+            series = [np.array([[int(3 * data_pattern(i, 0, s))] for i in range(W + 1)], dtype=np.int64) for s in range(2)]
+            for a in series:
+                a._b.owner = 'caller'
+        elif joint:
             series = [stubs.const_array([[data_pattern(i, 0, s)] for i in range(W + 1)]) for s in range(2)]
         else:
             series = [stubs.const_array([[data_pattern(i, 0)] for i in range(W + 2)])]
@@ -234,12 +240,13 @@ class C19(Check):
         finally:
             Rp.gl._update_cluster_covariances = real_update
         intact = conj([no_caller_writes(), len(given) == len(series)] + [a is b for a, b in zip(given, series)] +
+                      [a.dtype == (np.int64 if elem == 'int64' else np.float64) for a in series] +
                       [stubs.unchanged(sn, a) for sn, a in zip(snaps, protected)])
         return res, raised, intact
 
-    def front(self, c, joint, W, vector=False):
-        c.notes.update({'kind': 'front', 'joint': joint, 'W': W, 'vector': vector})
-        res, raised, intact = self._front_call(c, joint, W, vector=vector)
+    def front(self, c, joint, W, vector=False, elem='float64'):
+        c.notes.update({'kind': 'front', 'joint': joint, 'W': W, 'vector': vector, 'elem': elem})
+        res, raised, intact = self._front_call(c, joint, W, vector=vector, elem=elem)
         if raised is not None:
             c.notes['unexpected_exception'] = repr(raised)
             c.prove('front_ends_leave_inputs_alone', False, detail={'raised': repr(raised)})
